@@ -103,7 +103,7 @@ func TestVerifC13(t *testing.T) {
 	}
 	var jobs []job
 	for _, r := range roots {
-		for _, p := range vrt.EnumeratePaths(r.MD, vrt.IsNamespaceNameField, vrt.WalkOptions{MaxPerType: 2, ThroughBlobs: true}) {
+		for _, p := range vrt.EnumeratePaths(r.MD, vrt.IsNamespaceNameField, vrt.WalkOptions{MaxPerType: vfMaxPerType(), ThroughBlobs: true}) {
 			jobs = append(jobs, job{r, p})
 		}
 	}
